@@ -2,6 +2,6 @@ SPECIFICATION Spec
 CONSTANTS
   Stale = FALSE
   MaxLinks = 4
-  Flavours = {"var", "name"}
+  Flavours = {"var", "name", "neg", "negsp"}
 INVARIANTS Emit WhitespaceInsensitive PrecedenceHolds
 CHECK_DEADLOCK FALSE
